@@ -254,6 +254,7 @@ func genHistory(r *vh.Rng) *histT {
 	for k := 0; k < steps; k++ {
 		var cand []hnode
 		var st stepT
+		giveUp := false
 		for try := 0; ; try++ {
 			cand = append([]hnode{}, pool...)
 			if try > 0 { // the float guard refused the last draw: move some utilisations
@@ -295,14 +296,43 @@ func genHistory(r *vh.Rng) *histT {
 			if floatOrderExact(&input{nodes: st.nodes, metrics: st.metrics, specs: h.specs}) {
 				break
 			}
-			if try > 60 {
-				panic("generator: cannot find a history step whose float order is exact")
+			if try > 40 {
+				// the search gave up: a step that is float-exact BY CONSTRUCTION (one common
+				// utilisation: nodes of one warmup class get bit-identical sums, the classes
+				// differ by a whole weight), or else the history ends here
+				st, cand, giveUp = uniformStep(r, cand, pivots, h.specs)
+				break
 			}
+		}
+		if giveUp {
+			break
 		}
 		pool = cand
 		h.steps = append(h.steps, st)
 	}
+	if len(h.steps) == 0 {
+		h.steps = append(h.steps, stepT{}) // no node at all: trivially exact
+	}
 	return h
+}
+
+// uniformStep gives every node the same utilisation; ok=false (giveUp) if even that is
+// not accepted by the float guard (never observed; the caller then shortens the history)
+func uniformStep(r *vh.Rng, cand []hnode, pivots []int64, specs []specT) (stepT, []hnode, bool) {
+	u := utilValue(r, 3, pivots)
+	if u < 0 {
+		u = 0
+	}
+	out := append([]hnode{}, cand...)
+	for i := range out {
+		out[i].util = u
+		out[i].hasMetrics, out[i].present = true, true
+	}
+	st := stepOf(r, out, false)
+	if floatOrderExact(&input{nodes: st.nodes, metrics: st.metrics, specs: specs}) {
+		return st, out, false
+	}
+	return stepT{}, cand, true
 }
 
 // the seeded change C17-r4-2 in small: two allocation-rate schedulers [0,0.6] and
